@@ -18,11 +18,17 @@ Three parts (BUILDER_GUIDE):
     failed evaluation never come back), also on an ORACLE-ONLY stream the model cannot express: container
     domains (set / frozenset / dict / user container classes whose membership test raises, unhashable
     values), predicates written in plain Python raising genuine exceptions, impure (call-counting) bodies
-    with flaky effects, disable_effects() / enable_effects() between evaluations;
+    with flaky effects, disable_effects() / enable_effects() between evaluations; every history of every
+    stream (plus the directed 'fix the dictionary and try again' stream gen_repair) also on ONE options
+    dictionary object edited in place between the operations (scn['inplace']): object identity is outside the
+    model, the outcomes must be those of the fresh-dictionary run and all clauses must hold again;
  3. witness replay of the known finding D20.
 """
 import contextlib
+import copy
 import functools
+import random
+import time
 import types
 from collections.abc import Container as _Container
 
@@ -404,6 +410,71 @@ def gen_effects(rng, n):
     return scns
 
 
+def gen_repair(rng, n):
+    """'it failed -- fix the dictionary and try again': graphs with cache sites that receive the caller's own options
+    object (labrea.cached(...) at the root, nested under nodes that hand the caller's dictionary on) and graphs
+    that re-mix it (datasets, with_options copies, a cached node around a dataset), whose user code (body, step,
+    callback, effect) raises on a chosen value; histories alternating the failing dictionary, repaired ones and the
+    failing one again, with validate() calls in between.  Meant to be run on ONE dictionary object edited in place
+    (scn['inplace']) as well as with a fresh dictionary per call."""
+    scns = []
+    for i in range(n):
+        g = FailGen(rng)
+        key = rng.choice(PKEYS)
+        bad, good1, good2 = rng.sample(PVALS[:7], 3)
+        cls = rng.randint(1, 7)
+        body = g.newf(("tag_raise_on", ("j", bad), cls))
+        o_ = ("option", key, None, None)
+        r = rng.random()
+        if r < 0.4:
+            inner = ("call", body, [o_] + ([("option", K(12), ("value", ("j", 0)), None)] if rng.random() < 0.3 else []))
+        elif r < 0.7:
+            inner = ("apply", o_, ("pstep", body, []))
+        else:
+            inner = ("call", g.newf(("tag",)), [("call", body, [o_])])
+        c = g.next_c
+        g.next_c += 1
+        site = ("cached", c, inner)
+        exprs = [site]
+        r = rng.random()
+        if r < 0.3:
+            exprs.append(("call", g.newf(("tag",)), [site]))
+        elif r < 0.45:
+            exprs.append(("list", [("value", ("j", 0)), site]))
+        elif r < 0.6:
+            c2 = g.next_c
+            g.next_c += 1
+            exprs.append(("cached", c2, ("apply", site, ("pstep", g.newf(("tag",)), []))))
+        elif r < 0.8:
+            d = dict(fid=g.newf(("tag",)), kwargs=[inner if rng.random() < 0.5 else site])
+            if rng.random() < 0.4:
+                d["effects"] = [("pstep", g.newf(("tag_raise_on", ("t", d["fid"], [("t", body, [("j", good2)])]), rng.randint(1, 7))), [])]
+            g.env[1] = d
+            exprs.append(("dataset", 1))
+            if rng.random() < 0.4:
+                g.env[2] = dict(derived=1, how=rng.choice(["with_options", "with_default_options"]), preset={12: rng.choice(PVALS)})
+                exprs.append(("dataset", 2))
+            if rng.random() < 0.4:
+                c3 = g.next_c
+                g.next_c += 1
+                exprs.append(("cached", c3, ("dataset", 1)))
+        dicts = {"bad": _at(key, bad), "g1": _at(key, good1), "g2": _at(key, good2), "none": {}}
+        if rng.random() < 0.4:
+            extra = {12: rng.choice(PVALS)}
+            dicts = {k: _merge(v, extra) for k, v in dicts.items()}
+        ops = []
+        for _ in range(rng.randint(2, 4)):
+            x = rng.randrange(len(exprs))
+            pat = rng.choice([["bad", "g1", "bad"], ["bad", "g1", "bad", "g1"], ["g1", "bad", "g2", "bad", "g1"],
+                              ["bad", "bad", "g1", "bad"], ["none", "g1", "bad", "none", "bad"], ["bad", "g2", "g1", "bad", "g2"]])
+            for nm in pat:
+                if rng.random() < 0.2:
+                    ops.append(("validate", x, False, False, dicts[nm]))
+                ops.append(("evaluate", x if rng.random() < 0.85 else rng.randrange(len(exprs)), False, False, dicts[nm]))
+        scns.append(dict(ftable=dict(g.ftable), env=dict(g.env), exprs=exprs, ops=ops))
+    return scns
+
+
 # ----------------------------------------------------------------------------- the oracle-only stream
 
 PYPREDS = {                                    # plain Python predicates: they raise genuine exceptions on some values
@@ -505,9 +576,10 @@ class World12(core.World):
     ("count",) impure bodies whose value embeds their call counter, ("raise_first", k, n) raising on the first
     k calls, ("raise_on_inner", bad, n) raising when `bad` occurs anywhere inside an argument"""
 
-    def __init__(self, ftable):
+    def __init__(self, ftable, snapshot_options=False):
         super().__init__(ftable)
         self.sets = []
+        self.snapshot_options = snapshot_options     # the caller edits its dictionary later: keep what was passed THEN
         self.cur_op = None
         self.ncalls = {}
         self.stamp_op = {}           # (fid, n) -> the op during which the n-th call of the counting body fid ran
@@ -556,7 +628,7 @@ class World12(core.World):
             world = self
 
             def _set(self_, evaluatable, options, value, _cls=type(base)):
-                world.sets.append((cid, evaluatable, options, value))
+                world.sets.append((cid, evaluatable, copy.deepcopy(options) if world.snapshot_options else options, value))
                 _cls.set(self_, evaluatable, options, value)
             self.caches[cid] = type("Rec12", (type(base),), {"set": _set})()
         return self.caches[cid]
@@ -641,24 +713,38 @@ def chain_of(exc):
     return out
 
 
+def sync_inplace(shared, new):
+    """the caller re-uses ONE dictionary object for every call: emptied and filled again in place (so that the
+    order of its entries is that of a fresh dictionary) -- the object itself is never replaced"""
+    shared.clear()
+    shared.update(new)
+    return shared
+
+
 def run_history(scn, skip=None):
-    """run the ops on ONE long-lived graph; one record per op (ops with index == skip are left out)"""
+    """run the ops on ONE long-lived graph; one record per op (ops with index == skip are left out).
+    scn['inplace']: every operation is handed the SAME options dictionary object, which the caller edits in place
+    between the operations (a failed evaluation followed by 'fix the dictionary and try again')"""
     import labrea.cache
     import labrea.logging
-    w = World12(scn["ftable"])
+    inplace = bool(scn.get("inplace"))
+    w = World12(scn["ftable"], snapshot_options=inplace)
     b = Builder12(w, scn["env"])
     objs = [b.build(e) for e in scn["exprs"]]
     recs = []
+    shared = {}
     for j, (m, i, cc, lc, o) in enumerate(scn["ops"]):
         if j == skip:
             recs.append(None)
             continue
         po = core.py_json(o)
+        if inplace:
+            po = sync_inplace(shared, po)
         w.cur_op = j
         n_calls = len(w.calls)
         n_raised, n_sets = len(w.raised), len(w.sets)
         before = {cid: dict(c._cache) for cid, c in w.caches.items()}
-        rec = dict(op=j, method=m, obj=objs[i], options=po, exc=None, phase="ok", raw=None)
+        rec = dict(op=j, method=m, obj=objs[i], options=copy.deepcopy(po) if inplace else po, exc=None, phase="ok", raw=None)
         with contextlib.ExitStack() as st:
             if cc:
                 st.enter_context(labrea.cache.disabled())
@@ -1340,10 +1426,18 @@ def unique_missing(scn, idx, o, cc):
     return good[0] if len(good) == 1 else None
 
 
-def oracle(scn, marks=(), budget=None, model=None, impl_lines=None):
-    """all sentences of the property on one history; returns (violations, stats)"""
+def oracle(scn, marks=(), budget=None, model=None, impl_lines=None, diffs=None):
+    """all sentences of the property on one history; returns (violations, stats).
+    With scn['inplace'] the whole history (and the histories with one failed evaluation deleted) hands ONE options
+    dictionary object to every operation, edited in place in between; diffs (a list) then receives the operations
+    whose outcome differs from impl_lines, the outcome of the same history run with a fresh dictionary per call."""
     budget = budget if budget is not None else dict(delete=2, unique=3)
     recs, objs, w = run_history(scn)
+    if diffs is not None and impl_lines is not None and len(impl_lines) == len(recs):
+        for rec, il in zip(recs, impl_lines):
+            if rec["method"] in ("evaluate", "validate", "keys", "explain") and core.canon_names(rec["out"]) != cp.split(il)[0]:
+                diffs.append((rec["op"], rec["out"], cp.split(il)[0]))
+                break
     memo = {}
     viols = []
     st = dict(failing_evals=0, ok_evals=0, user_chain_ends=0, key_chain_ends=0, switch_case_ends=0, other_ends=0,
@@ -1557,6 +1651,12 @@ def run(ctx):
         scns.append(s)
         marks.append([])
     extended = gen_extended(ctx.rng, 150 if ctx.quick else 1500)
+    # (own generator: the streams above are the ones they were before this stream existed)
+    repair = gen_repair(random.Random(ctx.seed * 31 + 12), 100 if ctx.quick else 1000)
+    directed += repair
+    for s in repair:
+        scns.append(s)
+        marks.append([])
     impls, models, mism, stats = cp.correspondence(ctx, scns, "Cases_C12")
     mism, tolerated = tolerate(mism, scns, models)
     violations, tagged, distinct = [], {}, set()
@@ -1590,11 +1690,42 @@ def run(ctx):
         violations.extend(v[:2])
         if st["failing_evals"] and st["ok_evals"]:
             distinct.add(lib.stable_hash(cp.dump_scn(scn)))
+    # every history once more on ONE options dictionary object that the caller edits in place between the
+    # operations (all sentences of the property again; the histories with a failed evaluation deleted too).
+    # Object identity is outside the model (values only): the outcomes must be those of the fresh-dictionary run.
+    inplace_totals, inplace_diffs = {}, 0
+    t_inplace = time.time()
+    for scn, mk, il, ml in list(zip(scns, marks, impls, models)) + [(s, (), None, None) for s in extended]:
+        if not any(op[0] == "evaluate" for op in scn["ops"]):
+            continue
+        scn2 = dict(scn, inplace=True)
+        diffs = []
+        ext = bool(scn.get("ext"))
+        try:
+            v, st = oracle(scn2, mk, budget=dict(delete=0 if impure(scn) else (2 if ctx.quick else 3), unique=0),
+                           model=ml if (ml is not None and len(ml) == len(il)) else None, impl_lines=il, diffs=diffs)
+        except RecursionError:
+            continue
+        for k, x in st.items():
+            inplace_totals[k] = inplace_totals.get(k, 0) + x
+        for x in v[:2]:
+            if x["finding"]:
+                tagged[x["finding"]] = tagged.get(x["finding"], 0) + 1
+            x["desc"] += " [history run on one options dictionary object edited in place between the operations]"
+            violations.append(x)
+        for (j, got, want) in diffs:
+            inplace_diffs += 1
+            if cp.agrees(il, ml, scn, upto=j) if (ml is not None and len(ml) == len(il)) else False:
+                mism.append(dict(where="Model/Eval.v (values only) vs labrea on a history handing ONE options dictionary object, edited in "
+                                       "place, to every operation", op_index=j, op=repr(scn["ops"][j])[:300], impl=got,
+                                 model=cp.strip_ghost(ml[j]), scenario_repr=cp.dump_scn(scn2)))
+    t_inplace = round(time.time() - t_inplace, 1)
     # known finding: witness replay
     wv, _ = oracle(D20_WITNESS["scn"], model=models[len(fixed) - 1], impl_lines=impls[len(fixed) - 1])
     known = [dict(id="D20", still_fails=any(x.get("check") == "masked" for x in wv), what=D20_WITNESS["what"])]
     oracle_checks = (totals.get("failing_evals", 0) + totals.get("deletion_ops_compared", 0) + totals.get("supplies", 0)
-                     + ext_totals.get("failing_evals", 0) + ext_totals.get("ok_evals", 0) + ext_totals.get("deletion_ops_compared", 0))
+                     + ext_totals.get("failing_evals", 0) + ext_totals.get("ok_evals", 0) + ext_totals.get("deletion_ops_compared", 0)
+                     + inplace_totals.get("failing_evals", 0) + inplace_totals.get("ok_evals", 0) + inplace_totals.get("deletion_ops_compared", 0))
     return {
         "evaluations": stats["ops"] + oracle_checks,
         "distinct_nontrivial": len(distinct),
@@ -1608,7 +1739,11 @@ def run(ctx):
                 "same dictionary evaluated again after the failure, with LABREA.EFFECTS.DISABLED, with the cache off, through a second dataset; "
                 "an oracle-only stream: container domains (set, frozenset, dict, tuple, user container classes) tested with unhashable values, "
                 "plain-Python predicates raising genuine exceptions, call-counting bodies with flaky effects, disable_effects()/enable_effects() "
-                "between evaluations. non-trivial = the history contains at least one failing AND one succeeding evaluation; distinct by "
+                "between evaluations; a directed 'it failed - fix the dictionary and try again' stream (cache sites that receive the caller's own "
+                "options object: labrea.cached(...) at the root and nested; datasets, with_options copies, cached nodes around datasets; the failing "
+                "dictionary, repaired ones, the failing one again, validate() in between). EVERY history of every stream is run a second time on ONE "
+                "options dictionary object that the caller edits in place between the operations (all oracle clauses again, incl. the histories with a "
+                "failed evaluation deleted); the outcomes must also equal the fresh-dictionary run the model was compared with. non-trivial = the history contains at least one failing AND one succeeding evaluation; distinct by "
                 "hash of the scenario",
         "samples": [dict(exprs=repr(s["exprs"])[:400], first_ops=[repr(o)[:160] for o in s["ops"][:3]], observed=il[:3])
                     for s, il in list(zip(scns, impls))[len(fixed):len(fixed) + 3]],
@@ -1618,10 +1753,15 @@ def run(ctx):
         "known": known,
         "distribution": dict(stats, scenarios=len(scns), random_scenarios=n_random - len(fixed), directed_scenarios=len(directed),
                              oracle_only_scenarios=len(extended), oracle=totals, oracle_on_oracle_only_stream=ext_totals,
+                             repair_scenarios=len(repair), oracle_on_one_dictionary_object_edited_in_place=inplace_totals,
+                             in_place_outcomes_differing_from_fresh_dictionary_run=inplace_diffs, in_place_pass_wall_s=t_inplace,
                              oracle_failures_tagged=tagged, correspondence_differences_tolerated=tolerated),
         "exhaustive": False,
         "assumptions": ["in the streams that run through the model, user code is deterministic and raises the exception classes of the harness (8 base classes incl. KeyError, TypeError, ValueError)",
                         "cyclic template references excluded; floats not generated",
+                        "in-place histories replace the dictionary's TOP-LEVEL contents in place (the object handed to evaluate() is the same every time, its "
+                        "nested values are fresh objects): mutating a nested value object that an earlier evaluation returned / memoised is the caller editing "
+                        "a result, not covered",
                         "exceptions leaving validate()/keys()/explain() are compared with the model only (they may be raw; not part of the property)",
                         "'later outcomes do not depend on the failed evaluation' is skipped inside the recorded stale-hit zones of C01 (model's dirty marker), "
                         "where a SUCCESS stored by the failing run is what changes the outcome"],
